@@ -28,6 +28,21 @@ CHECKS = {
    text="Five workloads (extend with snapshots, snapshot then reorg, snapshot-reorg-snapshot, snapshot raced by the next block, side branch during a snapshot) are executed once with all create/write/rename/remove/truncate effects of lib/chain and lib/utxo recorded; for every crash point (1000-2500 per workload incl. torn writes) a fresh process opens the directory with the client's options and catch-up logic (thorough: also the library default), must not die, must show a previously validated tip with UTXO = replay of that tip, must reach the uninterrupted run's final state after the blocks are re-delivered, and must reproduce it after a clean close + reopen.",
    note="crash = process death (completed system calls persist; no power-loss reordering); the log model is conformance-checked every run (materialised full log == real directory); snapshot goroutines free-running while recording",
    design="2.4, 3/C07"),
+ "C09": dict(dir="c09", level="exploration", engine="seqx-shape",
+   technique="bounded-exhaustive enumeration of constructed byte-string families on btc.NewTx / Tx methods / NewBlock+BuildTxListExt(true,false), each case in a child worker under RLIMIT_AS with per-decode allocation measurement, compared with an independent Core-exact decoder (reftx)",
+   text="Every member of: grammar-generated tx encodings (0-2 quick / 0-3 thorough inputs, outputs, witness items; script lengths 0,1,252,253,10^4; legacy, segwit, coinbase-like), every truncation, every single-byte substitution (8 values quick, 256 thorough), every CompactSize in each longer form, 7 huge counts per CompactSize, 5 marker/flag pairs, empty-witness re-encoding, trailing bytes; all strings of length <=5 (thorough <=7) over {00,01,02,fd,fe,ff} after a version; blocks of 0-2 (0-3) txs with every truncation, 19 count rewrites, substitutions, trailing data, in both hash modes. Judged: accept/refuse equals Core's deserialiser, re-encoding identity, txid/wtxid/size/nowitsize/weight/vsize/BlockWeight definitions, no panic, allocation <= 64*len+64KiB, no process death. Bounded-exhaustive over these families, not over all byte strings.",
+   note="trusted: reftx (validated on the 712 transactions of the repo's vector files), Go runtime MemStats; zero-tx block refusal and the zero coinbase wtxid in hash mode are not judged",
+   design="3/C09"),
+ "C14": dict(dir="c14", level="exploration", engine="seqx-shape",
+   technique="bounded-exhaustive enumeration of (i) btc.HDWallet derivation trees, extended-key string mutations and BIP39 entropy/mnemonic families in-process and (ii) a configuration family driven through the wallet BINARY built from the tree (black box, every configuration twice); oracle = independent BIP32/BIP39/scrypt/address reference (refhd, refaddr over refsecp)",
+   text="Library: every node of the index-set tree {0,1,2^31-1,2^31,2^31+1,2^32-1}^<=3 below 6 (thorough 20) seeds incl. seeds with leading-zero child keys: private key, chain code, metadata, xprv/xpub strings, Pub(), public derivation = private derivation, StringWallet round trip; StringWallet on every single-character mutation and every checksum-byte value of extended keys; bip39 on all entropy lengths x patterns, every single-bit entropy, every single-word substitution of 12/18/24-word mnemonics; a directed family of private keys whose public Y is small. Binary: 386 (thorough 4282) configurations = hdpath x bip39 mode x atype x network x hdsubs x scrypt x seed kinds (+ type 3); -l twice (.secret and -stdin), -dump, -xprv, -words parsed: root = BIP32 master of the BIP39/raw seed, every key = derivation at its label path, every listed address = address of the exported key, xpub derives the listed public keys, WIF/xprv re-import give the same keys, invalid user mnemonics refused.",
+   note="trusted: refhd/refaddr/refsecp (validated against every BIP32/BIP39/scrypt/Base58/Bech32 vector on disk at start), pinned BIP39 word list; gocoin-specific derivations without external spec (bip39=N entropy from the password, scrypt salt/params, type-3 chain) are pinned and counted, not judged; type 3 judged on determinism and address<->key agreement only",
+   design="3/C14"),
+ "C15": dict(dir="c15", level="exploration", engine="seqx-shape",
+   technique="bounded-exhaustive enumeration of constructed destination / address-string / WIF-string families on btc.NewAddrFromString, OutScript, NewAddrFromPkScript, DecodePrivateAddr and lib/others/bech32, compared with an independent Base58Check/Bech32/Bech32m/segwit/WIF reference (refaddr)",
+   text="Encode->decode->re-encode for all witness versions 0..16 x program lengths 0..42 x 6 patterns x bc/tb (both cases), all 256 Base58 version bytes x 6 hashes; valid-checksum structurally invalid segwit strings (versions 0..31 x both checksum variants x every data length x fills x hrps); from 17 valid addresses and 6 WIFs ALL single substitutions over 100 byte values, insertions, deletions, case flips, whole-case changes, transpositions, every checksum-byte value; all double substitutions inside the Bech32 charset on 3 (thorough 12) addresses and all triples on the short address; all strings of length <=4 (thorough <=6) over a 12-character alphabet. Verdict, decoded script and re-encoded string must equal the reference.",
+   note="trusted: refaddr (validated against all BIP173/BIP350/Base58/addr/WIF vectors on disk at start). NewAddrFromString has no network parameter: a string is valid iff valid for main, test or Litecoin Base58 versions. Not judged (counted): other Base58 version bytes, WIF keys outside [1,n-1], P2PK scripts, encoder preconditions",
+   design="3/C15"),
 }
 
 ALL = ["C%02d" % i for i in range(1, 21)]
@@ -65,6 +80,8 @@ def main():
              "kind_free_text": "controlled cooperative scheduler over the real goroutines + deviation-bounded stateless DFS, sharded over worker processes"},
             {"name": "crashfs", "path": "/verif/internal/vos, /verif/internal/crashfs", "serves_properties": [p for p in sorted(CHECKS) if CHECKS[p]["engine"] == "crashfs"],
              "kind_free_text": "file-effect recording shim + exhaustive crash-prefix / torn-write materialisation + recovery in fresh processes"},
+            {"name": "seqx-shape", "path": "/verif/checks", "serves_properties": [p for p in sorted(CHECKS) if CHECKS[p]["engine"] == "seqx-shape"],
+             "kind_free_text": "bounded-exhaustive enumeration of constructed finite input / program / configuration families on the real entry points, independent reference model as oracle"},
             {"name": "seqx-state", "path": "/verif/checks", "serves_properties": [p for p in sorted(CHECKS) if CHECKS[p]["engine"] == "seqx-state"],
              "kind_free_text": "explicit-state / bounded-exhaustive history enumeration on the real objects, reference model as oracle"},
         ],
